@@ -234,6 +234,24 @@ func c10Eval(c *fw.Ctx, k c10Case) (sig, desc string, nontrivial bool) {
 			return "C10/" + clause, fmt.Sprintf("%s: item %s: %s", ctx, item, msg), nontrivial
 		}
 	}
+	// the same run with the source base spelled in other valid ways (trailing slash, ./, //, ..) gives the same output
+	dg := k.Archive + 1
+	for _, cd := range k.Codes {
+		for _, v := range cd {
+			dg += v
+		}
+	}
+	if dg%4 == 0 && k.Mode == "sum" {
+		for _, sp := range []string{root + "/", filepath.Dir(root) + "/./c10", filepath.Dir(root) + "//c10", root + "/it/.."} {
+			c2 := *cmd
+			c2.SrcBase = sp
+			err2, pn2 := RunCommand(k.Now, &c2)
+			t2 := readAndRemove(out)
+			if classify(err2, pn2) != cls || t2 != text {
+				return "C10/base-spelling", fmt.Sprintf("%s: with -src-base %q the run gives %s (%v) and another output than with the clean spelling", ctx, sp, classify(err2, pn2), err2), nontrivial
+			}
+		}
+	}
 	return "", "", nontrivial
 }
 
